@@ -1,14 +1,231 @@
-"""Verus back end (stub until units are added)."""
-from common import BackendResult
+"""Verus back end: units extracted from /repo on every run."""
+import json
+import os
+import re
+import sys
+import time
+
+import common
+from common import Obligation, BackendResult, VERIF, WORK, REPO
+
+sys.path.insert(0, os.path.join(VERIF, "extract"))
+import extractor  # noqa: E402
+
+# unit -> properties served, tier, paired Kani harness for counterexamples
+UNITS_FILE = os.path.join(VERIF, "contracts", "units.json")
+
+
+def load_units():
+    with open(UNITS_FILE) as f:
+        return json.load(f)
+
+
+def verus_run(unit_rs, log, extra_args=()):
+    cmd = ["verus", unit_rs, "--output-json", "--time", "--num-threads", "8"] + list(extra_args)
+    t0 = time.time()
+    e = dict(os.environ)
+    import subprocess
+    p = subprocess.run(cmd, cwd=os.path.dirname(unit_rs), env=e, stdout=subprocess.PIPE,
+                       stderr=subprocess.PIPE, text=True, errors="replace", timeout=1800)
+    with open(log, "w") as f:
+        f.write("$ " + " ".join(cmd) + "\n--- stdout ---\n" + p.stdout + "\n--- stderr ---\n" + p.stderr)
+    return p.returncode, p.stdout, p.stderr, time.time() - t0, " ".join(cmd)
+
+
+ERR_RE = re.compile(r"^(error(?:\[E\d+\])?): (.*?)\n\s*--> [^:\n]+:(\d+):(\d+)", re.M)
+
+
+def parse_errors(stderr):
+    """-> list of (message, line)"""
+    out = []
+    for m in ERR_RE.finditer(stderr):
+        out.append((m.group(2).strip(), int(m.group(3))))
+    return out
+
+
+TOOL_LIMIT = re.compile(r"rlimit|Resource limit|not supported|unsupported|The verifier does not yet support|"
+                        r"internal error|panicked|cyclic self-reference|ill-typed", re.I)
+
+
+def fn_line_map(unit_text):
+    """line -> enclosing fn/proof fn name (innermost item starting before the line)"""
+    names = []
+    for i, l in enumerate(unit_text.split("\n"), 1):
+        m = re.match(r"\s*(?:pub(?:\([a-z]+\))?\s+)?(?:open\s+|closed\s+)?(?:broadcast\s+)?(?:proof\s+|spec\s+|exec\s+)?fn\s+(\w+)", l)
+        if m:
+            names.append((i, m.group(1)))
+    return names
+
+
+def enclosing(names, line):
+    cur = None
+    for i, n in names:
+        if i <= line:
+            cur = n
+        else:
+            break
+    return cur
 
 
 def run(prop, tier, only_units=None):
-    return BackendResult()
+    res = BackendResult()
+    t0 = time.time()
+    units = load_units()
+    sel = []
+    for name, u in units.items():
+        if only_units:
+            if name in only_units:
+                sel.append((name, u))
+            continue
+        if prop in u["props"] and (u.get("tier", "quick") == "quick" or tier == "thorough"):
+            sel.append((name, u))
+    if not sel:
+        return res
+    work = os.path.join(common.ensure_work(), "verus")
+    os.makedirs(work, exist_ok=True)
+    cmds = []
+    res.extra["dropped"] = []
+    res.extra["extraction"] = {}
+    res.extra["diag"] = {}
+    for name, u in sel:
+        tpl = os.path.join(VERIF, "contracts", name + ".rs.tpl")
+        unit_rs = os.path.join(work, f"{name}.rs")
+        try:
+            info = extractor.build_unit(tpl, REPO, unit_rs)
+        except extractor.ExtractError as ex:
+            res.undecided.append(f"verus/{name}: extraction failed: {ex}")
+            continue
+        res.extra["dropped"] += info["dropped"]
+        res.extra["extraction"][name] = {
+            "items": [f'{i["file"]}:{i["src_line"]} {i["name"]}' for i in info["items"]],
+            "edit_regions": info["regions"], "edit_kinds": info["edit_kinds"],
+            "tokens_checked_equal_to_source": info["tokens_checked"]}
+        log = os.path.join(WORK, f"verus-{name}.log")
+        with common.WorkLock("verus-" + name):
+            try:
+                rc, out, err, wall, cmd = verus_run(unit_rs, log)
+            except Exception as ex:
+                res.undecided.append(f"verus/{name}: verus did not finish: {ex}")
+                continue
+        cmds.append(cmd)
+        try:
+            j = json.loads(out[out.index("{"):])
+        except Exception:
+            res.undecided.append(f"verus/{name}: no JSON result (tool error); see {log}")
+            continue
+        vres = j.get("verification-results", {})
+        verified, errors = vres.get("verified", 0), vres.get("errors", 0)
+        smt_ms = j.get("times-ms", {}).get("smt", {}).get("total", 0)
+        unit_text = open(unit_rs).read()
+        names = fn_line_map(unit_text)
+        errs = parse_errors(err)
+        if vres.get("encountered-vir-error") or (not vres.get("success") and not errs and errors == 0):
+            first = err.strip().split("\n")[:3]
+            res.undecided.append(f"verus/{name}: unit rejected before verification (tool limit or "
+                                 f"unsupported construct): {' | '.join(first)[:300]}")
+            continue
+        # obligations = functions of this unit that Verus checked
+        funcs = [k.split("::", 1)[1] for k in j.get("func-details", {}).keys()
+                 if not k.startswith("vstd::") and "::" in k]
+        # spec functions and assumed specifications are definitions, not obligations
+        spec_fns = set(re.findall(r"\bspec\s+fn\s+(\w+)", unit_text))
+        checked_fns = set(re.findall(r"(?<!spec )\bfn\s+(\w+)", unit_text)) - spec_fns
+        funcs = [f for f in funcs if f.split("::")[-1] in checked_fns]
+        ext_fns = set(re.findall(r"#\[verifier::external_body\]\s*(?:/\*@e\d+\*/)?\s*(?:pub\s+)?(?:proof\s+)?fn\s+(\w+)", unit_text))
+        funcs = [f for f in funcs if f.split("::")[-1] not in ext_fns or True]
+        item_of_line = info["items"]
+        failed_by_fn = {}
+        tool_by_fn = {}
+        for msg, line in errs:
+            fn = enclosing(names, line) or "?"
+            src = ""
+            for it in item_of_line:
+                if it["first_line"] <= line <= it["last_line"]:
+                    src = f' [from {it["file"]}:{it["src_line"]}]'
+            entry = f"{msg} (unit line {line}: {unit_text.splitlines()[line-1].strip()[:120]}){src}"
+            if TOOL_LIMIT.search(msg):
+                tool_by_fn.setdefault(fn, []).append(entry)
+            else:
+                failed_by_fn.setdefault(fn, []).append(entry)
+        res.extra["diag"][name] = err
+        item_fns = {}
+        for it in info["items"]:
+            item_fns[it["name"]] = it
+        if verified + errors == 0:
+            res.undecided.append(f"verus/{name}: zero obligations (vacuous unit)")
+            continue
+        seen = set()
+        for fn in funcs:
+            short = fn.split("::")[-1]
+            key = fn
+            if key in seen:
+                continue
+            seen.add(key)
+            # attribute by last path segment
+            fails = failed_by_fn.get(short, [])
+            tools = tool_by_fn.get(short, [])
+            status = "discharged"
+            if fails:
+                status = "failed"
+            elif tools:
+                status = "undecided"
+            ob = Obligation(name=f"verus/{name}/{fn}", prop=prop,
+                            backend="verus 0.2026.09.13 (z3)", kind="unbounded",
+                            status=status, vars=u.get("vars", "all inputs, all iterations, all type parameters"),
+                            time_s=0.0, detail=fails or tools,
+                            functions=[f'{it["file"]}:{it["name"]}' for it in info["items"]
+                                       if it["name"].split("::")[-1] == short or short in it["name"]])
+            res.obligations.append(ob)
+            if status == "undecided":
+                res.undecided.append(f"{ob.name}: {tools[0][:200]}")
+        # errors that could not be attributed to a listed function
+        known = {f.split("::")[-1] for f in funcs}
+        for fn, fails in list(failed_by_fn.items()) + list(tool_by_fn.items()):
+            if fn not in known:
+                res.undecided.append(f"verus/{name}: error outside any checked function ({fn}): {fails[0][:200]}")
+        if res.obligations:
+            # spread the unit's SMT time over its obligations for the evidence
+            mine = [o for o in res.obligations if o.name.startswith(f"verus/{name}/")]
+            for o in mine:
+                o.time_s = smt_ms / 1000.0 / max(1, len(mine))
+                o.checks = 0
+            if mine:
+                mine[0].checks = verified + errors
+        res.trusted += scan_trusted(name, unit_text, info)
+    res.checker_cmd = " ; ".join(cmds)
+    res.wall_s = time.time() - t0
+    return res
+
+
+def scan_trusted(name, text, info):
+    out = []
+    for m in re.finditer(r"assume_specification\s*(?:<[^>]*>)?\s*\[\s*([^\]]+?)\s*\]", text):
+        out.append(f"{name}: assumed std specification: {m.group(1)}")
+    for e in info["externals"]:
+        out.append(f"{name}: external_body (assumed contract, body not verified by Verus): {e}")
+    for m in re.finditer(r"#\[verifier::external_body\]\s*(?:pub\s+)?(?:proof\s+|spec\s+)?fn\s+(\w+)", text):
+        if not any(m.group(1) in e for e in info["externals"]):
+            out.append(f"{name}: axiom / external_body in specification text: {m.group(1)}")
+    for m in re.finditer(r"\b(assume|admit)\s*\(", text):
+        out.append(f"{name}: `{m.group(1)}` statement present in unit (unchecked assumption)")
+    for m in re.finditer(r"external_trait_specification|external_type_specification", text):
+        out.append(f"{name}: {m.group(0)} (trusted signature of an external item)")
+    for d in info["dropped"]:
+        out.append(f"{name}: dropped item (R4): {d}")
+    out.append("Verus 0.2026.09.13 / z3; rustc type checking of the extracted unit")
+    return sorted(set(out))
 
 
 def diagnostic_for(vr, ob):
-    return ""
+    if vr is None:
+        return ""
+    unit = ob.name.split("/")[1]
+    return vr.extra.get("diag", {}).get(unit, "")
 
 
 def paired_harness(ob):
-    return None
+    units = load_units()
+    unit = ob.name.split("/")[1]
+    fn = ob.name.split("/")[-1].split("::")[-1]
+    pairs = units.get(unit, {}).get("paired", {})
+    return pairs.get(fn) or pairs.get("*")
